@@ -3,16 +3,13 @@ module verifext
 go 1.23.0
 
 require (
-<<<<<<< HEAD
 	github.com/tinode/chat v0.0.0
 	golang.org/x/crypto v0.37.0
-=======
-	github.com/rivo/uniseg v0.4.7 // indirect
-	github.com/tinode/snowflake v1.0.0 // indirect
-	golang.org/x/crypto v0.37.0 // indirect
->>>>>>> c13
 )
 
-require github.com/tinode/snowflake v1.0.0 // indirect
+require (
+	github.com/rivo/uniseg v0.4.7 // indirect
+	github.com/tinode/snowflake v1.0.0 // indirect
+)
 
 replace github.com/tinode/chat => /repo
